@@ -93,12 +93,12 @@ class Probe:
         rec.clear()
         try:
             out = format(im, spec)
-        except StyleError:
-            return {"k": 2, "fx": self.effects(rec)}
-        except ValueError:
-            return {"k": 1, "fx": self.effects(rec)}
+        except StyleError as e:
+            return {"k": 2, "fx": self.effects(rec), **exc_id(e)}
+        except ValueError as e:
+            return {"k": 1, "fx": self.effects(rec), **exc_id(e)}
         except Exception as e:  # any other exception class is not documented
-            return {"k": 9, "exc": type(e).__name__ + ": " + str(e)[:200], "fx": self.effects(rec)}
+            return {"k": 9, "exc": type(e).__name__ + ": " + str(e)[:200], "fx": self.effects(rec), **exc_id(e)}
         if not detail:
             return {"k": 0}
         o = {"k": 0}
@@ -160,6 +160,21 @@ class Probe:
         if self.public() != self.pub0:
             fx.append("public state changed")
         return fx
+
+
+def exc_id(e):
+    """The EXACT class of a raised exception (module-qualified name) and the kind of its message."""
+    name = type(e).__module__ + "." + type(e).__qualname__
+    msg = str(e)
+    if msg.startswith("Invalid format specifier"):
+        kind = 1
+    elif msg.startswith("Invalid style-specific format specifier"):
+        kind = 2
+    elif msg.startswith(("z-index must be within", "Compression level must be between")):
+        kind = 3
+    else:
+        kind = 9
+    return {"cls": name, "msgk": kind, "msg": msg[:160]}
 
 
 def enc_alpha(a):
